@@ -7,6 +7,7 @@ import (
 	"fmt"
 	"net/http"
 	"strings"
+	"sync"
 	"time"
 
 	"github.com/notaryproject/notation-core-go/revocation"
@@ -61,8 +62,24 @@ func chainScenarios(tier mc.Tier, p purposeKind, id string) []mc.Scenario {
 	return out
 }
 
+// chainPrimed: (purpose, length, leaf key) whose conforming chain this process has already validated once.
+var chainPrimed sync.Map
+
 func chainBody(c *mc.Ctx, n int, leafKey string, p purposeKind, id string) {
 	viol, ben := chainMods(n, p)
+	// the conforming chain of this description is validated once per process before any variant of it (so also in a replay
+	// process): whatever a validator remembers about certificates it has accepted must not make a defective look-alike pass
+	if _, done := chainPrimed.LoadOrStore(fmt.Sprintf("%d/%d/%s", p, n, leafKey), true); !done {
+		good := newChainDesc(n, leafKey, p).forge()
+		func() {
+			defer func() { recover() }()
+			if p == purposeCS {
+				nx509.ValidateCodeSigningCertChain(good, nil)
+			} else {
+				nx509.ValidateTimestampingCertChain(good)
+			}
+		}()
+	}
 	d := newChainDesc(n, leafKey, p)
 	v1 := c.Choose("violation", len(viol)+1)
 	var bi int
